@@ -28,13 +28,14 @@ RULE = (
 ASSUMPTIONS = [
     "declared couplings: exclusive options reset their partner; MultiCtl.value fans out to linked targets; an embedded controller edit may update "
     "the MetaModule's stored user-controller values; the user-controller count changes attachment/labels/stored values",
-    "not editable by construction: Output.name, index/parent/project back-references, a loaded pattern's tracks/lines, wholesale replacement of MetaModule.project",
+    "not editable by construction: Output.name, index/parent/project back-references, a loaded pattern's tracks/lines",
+    "a program's own subclass of MetaModule (three shards) overrides nothing; subclasses that change behaviour are outside the catalogue",
     "instruments without the 'SAMP' signature (true legacy) are outside this property's domain",
 ]
 # classes of cases that are produced deterministically: their absence is a harness error (see vlib.harness)
-HARD_LABELS = ['attr_sweep', 'src_fixture']
+HARD_LABELS = ['attr_sweep', 'src_fixture', 'after_user_subclass_of_metamodule']
 REQUIRED_LABELS = {
-    "quick": ["edit_pf", "edit_mc", "edit_ctl", "edit_opt", "edit_cmid", "edit_pay", "edit_cell", "src_fixture", "src_project", "src_synth", "sampler_edit", "changed", "attr_sweep", "saved_before_edit", "embedded_edit", "duplicates", "edit_inside_one_of_identical_containers", "whole_object_replaced", "user_value_edit", "user_value_edit_via_alias"],
+    "quick": ["edit_pf", "edit_mc", "edit_ctl", "edit_opt", "edit_cmid", "edit_pay", "edit_cell", "src_fixture", "src_project", "src_synth", "sampler_edit", "changed", "attr_sweep", "saved_before_edit", "embedded_edit", "duplicates", "edit_inside_one_of_identical_containers", "whole_object_replaced", "user_value_edit", "user_value_edit_via_alias", "after_user_subclass_of_metamodule"],
     "thorough": ["edit_pf", "edit_mc", "edit_ctl", "edit_opt", "edit_cmid", "edit_pay", "edit_cell", "edit_patf", "src_fixture", "src_project", "src_synth", "sampler_edit", "metamodule_edit", "embedded_edit", "changed", "fixture_sweep"],
 }
 
@@ -49,6 +50,10 @@ def plan(tier):
     for t in ("Sampler", "MetaModule", "NestedMeta", "SamplerEffect", "Duplicates", "MetaUser"):
         for i in range(2):
             descs.append({"kind": "focus", "type": t, "examples": per})
+    for t in ("MetaUser", "MetaModule", "NestedMeta"):
+        # the same, in a process whose program has derived its own class from MetaModule (the registry then
+        # hands out that class for every MetaModule read from a file)
+        descs.append({"kind": "focus", "type": t, "examples": per // 2, "prelude": "user_subclass"})
     fs = c05.fixture_files()
     for i in range(4):
         # every fixture x every attribute of the common catalogue (thorough: all; quick: every 6th, phase by seed)
@@ -250,8 +255,31 @@ def payload_sweep(m):
     return out
 
 
+_PRELUDE = []
+
+
+def user_subclass_prelude():
+    """What a program with its own module classes does at import time: a plain subclass of MetaModule (same
+    name, nothing overridden).  Runs once per (forked, single-task) worker process."""
+    if not _PRELUDE:
+        import rv.modules.metamodule as mm
+
+        _PRELUDE.append(type("MetaModule", (mm.MetaModule,), {"__module__": "user_program", "__doc__": "derived by the program"}))
+    return _PRELUDE[0]
+
+
 def run_case(ctx, case):
+    if case.get("prelude") == "user_subclass":
+        cls = user_subclass_prelude()
+    else:
+        cls = None
     obj = c05.load(base_bytes(case))
+    if cls is not None:
+        root = obj.module if type(obj).__name__ == "Synth" else None
+        if root is not None and root.mtype == "MetaModule" and type(root) is not cls:
+            # not a property of the library that we rely on elsewhere: the recipe is only meaningful if the registry
+            # really handed out the derived class
+            raise AssertionError("prelude: loaded MetaModule is %r, not the derived class" % type(root))
     labels = {"src_" + case["src"]}
     changed_any = False
     saves = case.get("saves") or [None] * len(case["edits"])
@@ -382,6 +410,15 @@ def run_shard(ctx, desc):
             ctx.label("duplicates")
 
         run_property(ctx, edit_case(focus="Duplicates"), body_dup, desc["examples"], tag="focus:Duplicates", bucket="edit")
+        return
+    if desc["kind"] == "focus" and desc.get("prelude"):
+        user_subclass_prelude()
+
+        def body_pre(case):
+            body(case)
+            ctx.label("after_user_subclass_of_metamodule")
+
+        run_property(ctx, edit_case(focus=desc["type"]).map(lambda c: dict(c, prelude=desc["prelude"])), body_pre, desc["examples"], tag="focus+prelude:" + desc["type"], bucket="edit")
         return
     if desc["kind"] == "focus":
         run_property(ctx, edit_case(focus=desc["type"]), body, desc["examples"], tag="focus:" + desc["type"], bucket="edit")
